@@ -347,6 +347,16 @@ func (e *Env) binary(x EBinary) EVal {
 			efail("%s: sort mismatch %s vs %s in (%s %s %s)", x.Op, a.T.Sort, b.T.Sort, a.T, x.Op, b.T)
 		}
 		if a.T.Sort == SStr {
+			// two string literals of the program / contract text: decided here (also lets
+			// `||` and `&&` skip alternatives whose locals do not exist at this site)
+			if av, aok := u.literalText(a.T); aok {
+				if bv, bok := u.literalText(b.T); bok {
+					if (av == bv) == (x.Op == "==") {
+						return EVal{T: True}
+					}
+					return EVal{T: False}
+				}
+			}
 			u.strEqFacts(e.st, a.T, b.T)
 		}
 		if x.Op == "==" {
@@ -1192,3 +1202,14 @@ func (e *Env) call(x ECall) EVal {
 
 // ghost state accessors (channel histories, locks, contexts)
 var ghostStateFuncs = map[string]func(e *Env, a []EVal) EVal{}
+
+func (u *Unit) literalText(t Term) (string, bool) {
+	if t.Op != "" {
+		return "", false
+	}
+	if t.A == "emptyStr" {
+		return "", true
+	}
+	v, ok := u.litVal[t.A]
+	return v, ok
+}
